@@ -24,6 +24,9 @@ CUSTOMS = {
     "MyFixed": {"matrix": [["0", "I"], ["-I", "0"]], "params": []},
     "MyPerm3": {"matrix": [[("1" if (c == (r + 1) % 8) else "0") for c in range(8)] for r in range(8)], "params": []},
     "MyNonUnitary": {"matrix": [["1", "1/2"], ["0", "1"]], "params": []},
+    # a rotation by t written as a product of half-angle matrices, entries deliberately NOT in simplified form
+    "MyDoubleAngle": {"matrix": [["cos(t/2)**2 - sin(t/2)**2", "-2*sin(t/2)*cos(t/2)"],
+                                 ["2*sin(t/2)*cos(t/2)", "cos(t/2)**2 - sin(t/2)**2"]], "params": ["t"]},
 }
 # a Hadamard typed in with six digits: unitary only to 6e-7 - the Wavefunction class accepts what it produces,
 # numpy's sampler does not.  Only used by steps that ask for it by name (never drawn by the random generators).
@@ -88,13 +91,14 @@ CUSTOMS_ALT = {
     "MyFixed": {"matrix": [["0", "1"], ["1", "0"]], "params": []},
     "MyPerm3": {"matrix": [[("1" if (c == (r + 3) % 8) else "0") for c in range(8)] for r in range(8)], "params": []},
     "MyNonUnitary": {"matrix": [["1", "0"], ["1/3", "1"]], "params": []},
+    "MyDoubleAngle": {"matrix": [["1 - 2*sin(t/2)**2", "-sin(t)"], ["sin(t)", "2*cos(t/2)**2 - 1"]], "params": ["t"]},
 }
 
 _custom_cache = {}
 _variant = [0]
 # "cn": 1 in a circuit spec: the same definitions under names that differ from a built-in gate's name only in
 # letter case (legal: custom gate names merely must not BE built-in names)
-CASE_ALIASES = {"MyRot": "rx", "MyFixed": "h", "MyPhase2": "ms", "MyPerm3": "Swap3", "MyNonUnitary": "s"}
+CASE_ALIASES = {"MyRot": "rx", "MyFixed": "h", "MyPhase2": "ms", "MyPerm3": "Swap3", "MyNonUnitary": "s", "MyDoubleAngle": "ry"}
 _alias = [0]
 # ephemeral definitions: a fresh CustomGateDefinition object per call (nothing in the harness keeps it alive)
 EPHEMERAL_DEFS = [False]
@@ -301,7 +305,7 @@ def rand_qubits(r, k, n):
     return r.sample(range(n), k)
 
 
-def rand_circuit(r, n, n_ops, phase_ops=0.0, explicit_n=0.5, max_arity=4, **kw):
+def rand_circuit(r, n, n_ops, phase_ops=0.0, explicit_n=0.5, max_arity=4, echo=0.12, **kw):
     ops = []
     for _ in range(n_ops):
         if phase_ops and r.random() < phase_ops:
@@ -312,6 +316,13 @@ def rand_circuit(r, n, n_ops, phase_ops=0.0, explicit_n=0.5, max_arity=4, **kw):
         if k > n:
             continue
         ops.append({"gate": g, "q": rand_qubits(r, k, n)})
+        if k >= 2 and r.random() < echo:
+            # the same gate again, on the same qubits listed in another order (CNOT(a,b) CNOT(b,a) ...): whoever
+            # treats "same gate, same set of qubits" as "same operation" gets this wrong
+            q2 = list(ops[-1]["q"])
+            while q2 == ops[-1]["q"]:
+                r.shuffle(q2)
+            ops.append({"gate": g, "q": q2})
     c = {"ops": ops}
     used = max([max(o["q"]) for o in ops if "q" in o] + [-1]) + 1
     has_phase = any("phase" in o for o in ops)
